@@ -17,6 +17,8 @@ TRUSTED = ['CPython ast', 'the g*/p*/c* naming scheme', 'C01 (ipow exact)', 'ora
 
 def combine(run, f):
     sites = K.product_sites(run, f, order='acc_left', floor=1)
+    if not sites:
+        return
     s = sites[0]
     sel = f.posparams[0]
     rows_in = f.posparams[1]
@@ -138,17 +140,50 @@ def correction_sites(run, repo, f, rule='R6.xz'):
     return n
 
 
+def fast_paths(run, f, operand, kernels, required, rule='R6.fastpath'):
+    """A path of an in-place operation that returns without calling the kernel skips the whole transformation; that is only right
+    if the condition that selects the path looked at everything the skipped effect depends on (strings AND phases of the map)."""
+    from ..rules import guards
+    n = 0
+    for p, end in guards.paths(f.node.body):
+        if end == 'raise':
+            continue
+        called = False
+        reads = set()
+        for s_ in p:
+            if isinstance(s_, tuple):
+                for x in ast.walk(s_[1]):
+                    if isinstance(x, ast.Attribute) and isinstance(x.value, ast.Name) and x.value.id == operand:
+                        reads.add(x.attr)
+                continue
+            for c in ast.walk(s_):
+                if isinstance(c, ast.Call) and norm(c.func).split('.')[-1] in kernels:
+                    called = True
+        if called:
+            continue
+        n += 1
+        missing = [a for a in required if a not in reads]
+        conds = ' and '.join(('' if x[2] else 'not ') + norm(x[1]) for x in p if isinstance(x, tuple))[:140]
+        run.check(not missing, rule, f, 'path [%s]' % conds, 'this path leaves the operators untouched without applying %s, but its condition never looks at %s: '
+                  'a map with a trivial table and non-trivial signs (X, Y, Z gates, the square of a rotation) is silently ignored'
+                  % ('/'.join(sorted(kernels)), ', '.join('%s.%s' % (operand, a) for a in missing)))
+    return n
+
+
 def check(run):
     repo = run.repo
     K.kernel_form(run, repo, K.PY_U, 'ps0', 'loop', None, 'p0')
     K.kernel_form(run, repo, K.TC_U, 'ps0', 'vector', ['gs'], 'p0')
+    from ..rules import rowclass
     for rel in (K.PY_U, K.TC_U):
+        rowclass.check_flag_resets(run, repo.func(rel, 'pauli_combine'))
         combine(run, repo.func(rel, 'pauli_combine'))
         transform(run, repo, repo.func(rel, 'pauli_transform'))
     for f in repo.all_funcs():
         correction_sites(run, repo, f)
     for rel in (K.PY_P, K.TC_P):
         f = repo.func(rel, 'PauliList.transform_by')
+        fast_paths(run, f, f.posparams[1], {'pauli_transform', 'pauli_combine'}, ['gs', 'ps'])
         inout.check_function(run, repo, f, {'pauli_transform'})
         bind.check_function_calls(run, repo, f, only={'pauli_transform'})
         bind.check_unpacks(run, repo, f)
